@@ -71,6 +71,18 @@ Lemma vertex_normals_def (w : weighting) (ang : list R) (m : mesh R) :
                              (face_area Rops m) ang m (face_normals Rops m)).
 Proof. reflexivity. Qed.
 
+(* which face normals are interpolated: the caller's explicit custom_fnormals always win over a cached attribute, a cached
+   attribute over recomputation; with custom normals the result is their weighted sum made unit *)
+Lemma vn_source_def (cached : bool) :
+  g_vn_source true cached = 0%nat /\ g_vn_source false true = 1%nat /\ g_vn_source false false = 2%nat.
+Proof. repeat split. Qed.
+Lemma vertex_normals_custom_def (w : weighting) (ang : list R) (m : mesh R) (fn : list V3) :
+  vertex_normals_custom Rops w ang m fn
+  = map (normalized Rops) (interpolate_faces_to_vertices Rops (vzero Rops) (vadd Rops) (vscale Rops) (vdiv Rops) w
+                             (face_area Rops m) ang m fn) /\
+  vertex_normals Rops w ang m = vertex_normals_custom Rops w ang m (face_normals Rops m).
+Proof. split; reflexivity. Qed.
+
 (* ---------------------------------------------------------------- per-vertex angle defect *)
 Lemma fold_false {X A} (f : A -> X -> A) (l : list X) (a : A) : fold_left (fun acc x => if false then f acc x else acc) l a = a.
 Proof. induction l; cbn; auto. Qed.
